@@ -466,9 +466,9 @@ def _factory_must_return_object(b, c):
 
 
 reg(Entry("PduFactory.from_raw", "cfdp_pdu", _factory_must_return_object, st_pdu_valid, head=_cfdp_head, len_fields=lambda r, c: [(1, 2)], crc=patch_cfdp_crc,
-          obs=_obs_any_pdu, replen=lambda o, c: int(o.packet_len), pdu=True))
+          obs=_obs_any_pdu, replen=lambda o, c: -1 if o is None else int(o.packet_len), pdu=True))
 reg(Entry("PduFactory.from_raw_to_holder", "cfdp_pdu", lambda b, c: _factory().from_raw_to_holder(b), st_pdu_valid, head=_cfdp_head, len_fields=lambda r, c: [(1, 2)], crc=patch_cfdp_crc,
-          obs=lambda h: _obs_any_pdu(h.pdu), replen=lambda o, c: int(o.packet_len), pdu=True))
+          obs=lambda h: _obs_any_pdu(h.pdu), replen=lambda o, c: -1 if o.pdu is None else int(o.packet_len), pdu=True))
 reg(Entry("PduFactory.pdu_type", "cfdp_pdu", lambda b, c: _factory().pdu_type(b), st_pdu_valid, delimited=False, head=lambda r, c: 1, obs=lambda x: int(x)))
 reg(Entry("PduFactory.is_file_directive", "cfdp_pdu", lambda b, c: _factory().is_file_directive(b), st_pdu_valid, delimited=False, head=lambda r, c: 1, obs=lambda x: bool(x)))
 reg(Entry("PduFactory.pdu_directive_type", "cfdp_pdu", lambda b, c: _factory().pdu_directive_type(b), st_pdu_valid, delimited=False, head=_cfdp_head,
